@@ -55,7 +55,9 @@ def _sorter(rows, key_calc, reverse, batch_size):
 
     def process(rows):
         for row_num, row in enumerate(rows):
-            key = key_calc(row) + '{:08x}'.format(row_num)
+            # the separator sorts below any printable character: a key that is a proper prefix of
+            # another one ('a' / 'a0') must not be compared through its row number
+            key = key_calc(row) + '\x01{:08x}'.format(row_num)
             yield (key, row)
 
     db.insert(process(rows), batch_size=batch_size)
